@@ -103,7 +103,7 @@ def gen(seed, tier="quick"):
             nd["derive"] = {"src": src, "dst": dst, "gain": topo.choice([2.0, -1.0, 0.5])}
 
     tf = knobs.choice([0.05, 0.2, 0.5, 1.0, 3.0]) if not big else 3.0
-    ldt0 = knobs.choice([1 / 1000, 1 / 400, 1 / 200, 1 / 100, 1 / 50, 1 / 20, 1 / 5, 0.0173, 0.003])
+    ldt0 = knobs.choice([1 / 4000, 1 / 2000, 1 / 1000, 1 / 400, 1 / 200, 1 / 100, 1 / 50, 1 / 20, 1 / 5, 0.0173, 0.003])  # sub-millisecond periods included
     if tf / ldt0 > 1500:
         ldt0 = tf / 1500
     pnames.append(("logger/dt", "f8"))
@@ -151,7 +151,7 @@ def gen(seed, tier="quick"):
             if nm == "logger/dt":
                 if not enabled["logger_dt_change"]:
                     continue
-                val = work.choice([1 / 1000, 1 / 200, 1 / 50, 0.0173, 1 / 5, tf / 7])
+                val = work.choice([1 / 2500, 1 / 1000, 1 / 200, 1 / 50, 0.0173, 1 / 5, tf / 7])
                 if tf / val > 1500:
                     val = tf / 1500
             elif dt == "?":
